@@ -100,10 +100,11 @@ class StubMongoCollection:
 
 
 class _StubZarrArray:
-    def __init__(self, group, codec):
+    def __init__(self, group, codec, fill_value=0):
         self.group = group
         self.codec = codec
         self.blob = None
+        self.fill_value = fill_value
 
     def __setitem__(self, i, v):
         assert i == 0
@@ -114,7 +115,7 @@ class _StubZarrArray:
     def __getitem__(self, i):
         assert i == 0
         if self.blob is None:
-            return 0  # zarr fill value of a freshly created object array
+            return self.fill_value  # zarr fill value of a freshly created object array
         return self.codec.decode(self.blob)[0]
 
 
@@ -124,10 +125,11 @@ class StubZarrGroup:
         self.writes = 0
         self.reads = 0
 
-    def require_dataset(self, name, overwrite=False, shape=None, dtype=None, object_codec=None):
+    def require_dataset(self, name, overwrite=False, shape=None, dtype=None, object_codec=None, fill_value=0, **kwargs):
+        # (like zarr's: further array-creation keywords - chunks, compressor, ... - are accepted)
         if overwrite or name not in self.arrays:
             self.writes += 1  # creating / replacing the dataset is a write to the store
-            self.arrays[name] = _StubZarrArray(self, object_codec)
+            self.arrays[name] = _StubZarrArray(self, object_codec, fill_value)
         return self.arrays[name]
 
     def __getitem__(self, name):
